@@ -70,6 +70,41 @@ func TestVerifC08_Subscriptions(t *testing.T) {
 	vRun(t, "C08", vOpts{CurFile: true, ReplayReps: 25}, func(rt *rapid.T) e4Case {
 		c := e4GenCase(rt, e4OptsC08)
 		c.Cfg.SessionKept = rapid.Bool().Draw(rt, "kept2")
+		// most histories get 1..2 reconnects placed after a subscription was acknowledged (settle, then cut)
+		nrec := rapid.IntRange(0, 2).Draw(rt, "reconnectsAfterAck")
+		for k := 0; k < nrec; k++ {
+			var subAt []int
+			connectSeen := false
+			for i, st := range c.Steps {
+				if st.Kind == "connect" {
+					connectSeen = true
+				}
+				if connectSeen && (st.Kind == "sub" || st.Kind == "unsub") {
+					subAt = append(subAt, i)
+				}
+			}
+			if len(subAt) == 0 {
+				break
+			}
+			at := subAt[rapid.IntRange(0, len(subAt)-1).Draw(rt, "cutAfter")] + 1
+			held := false
+			for _, st := range c.Steps[:at] {
+				if st.Kind == "holdDial" {
+					held = true
+				}
+				if st.Kind == "releaseDial" {
+					held = false
+				}
+			}
+			if held {
+				continue
+			}
+			ins := []e4Step{{Kind: "settle"}, {Kind: "cutNow"}}
+			if rapid.Bool().Draw(rt, "gap") {
+				ins = append(ins, e4Step{Kind: "sleepBase", Extra: rapid.IntRange(-100, 300).Draw(rt, "delta")})
+			}
+			c.Steps = append(c.Steps[:at], append(ins, c.Steps[at:]...)...)
+		}
 		return c
 	}, func(tb rapid.TB, c e4Case) {
 		e4Check(tb, "C08", c, e4OracleC08, c08Nontrivial)
